@@ -5,7 +5,7 @@
     Proofs/TimeSitesProofs.v. *)
 From Coq Require Import ZArith.
 From Coq Require Import NArith List Bool.
-From Snel Require Import Base.Bytes Base.Civil Model.Time Model.TimePrint Model.TimeSites
+From Snel Require Import Base.Bytes Base.Civil Gen.Params Model.Time Model.TimePrint Model.TimeSites
                          Proofs.TimeProofs Proofs.CivilProofs Proofs.TimeIsoProofs Proofs.TimeSitesProofs.
 Import ListNotations.
 Open Scope Z_scope.
@@ -133,11 +133,12 @@ Print Assumptions C16_date_string_agree.
 
 (** For every string literal, the payload normaliser, the WHERE row filter, the SINCE row
     filter, the planner's literal rewriting, the zone pruner and the materialised-query
-    SINCE comparison read the same second — the pruner and the materialiser clamp it at 0
-    (class NegativeInstantClampedByPruner).  A literal no parser accepts is an error for the
-    payload, a string condition for WHERE, ignored for SINCE, left alone by the planner, and
-    0 for the pruner unless it is a 20-digit number that fits u64, which wraps negative
-    (class UnparsableSinceU64WrapsNegative). *)
+    SINCE comparison read the same second — the pruner sees [pruner_view z], which is
+    [max z 0] in the pinned tree (class NegativeInstantClampedByPruner) and [z] once
+    [tsite_pruner_clamps] is regenerated as false; the materialiser clamps at 0.  A literal no
+    parser accepts is an error for the payload, a string condition for WHERE, ignored for
+    SINCE, left alone by the planner, and the default value for the pruner unless the u64
+    fall-back takes it, in which case it wraps negative (class UnparsableSinceU64WrapsNegative). *)
 Theorem C16_sites_agree : forall (s : bytes) (ft : ftype),
   temporal_ft ft ->
   match parse_str_to_epoch_seconds s with
@@ -146,15 +147,16 @@ Theorem C16_sites_agree : forall (s : bytes) (ft : ftype),
       /\ site_where (TStr s) = CNum z
       /\ site_since_row s = SinceNum z
       /\ site_filter ft (TStr s) = SInt z
-      /\ pruner_ts (site_since_filter s) = Z.max z 0
-      /\ pruner_ts (site_filter ft (TStr s)) = Z.max z 0
+      /\ pruner_ts (site_since_filter s) = pruner_view z
+      /\ pruner_ts (site_filter ft (TStr s)) = pruner_view z
       /\ parse_since_epoch s = Some (Z.max z 0)
   | None =>
       site_payload ft (Some (TStr s)) = PErr
       /\ site_where (TStr s) = CStr
       /\ site_since_row s = SinceIgnored
       /\ site_filter ft (TStr s) = SUtf8 s
-      /\ (pruner_ts (SUtf8 s) = 0 \/ wrap_i64 (pruner_ts (SUtf8 s)) < 0)
+      /\ (pruner_ts (SUtf8 s) = tsite_pruner_unparsable
+          \/ (tsite_pruner_u64_fallback = true /\ wrap_i64 (pruner_ts (SUtf8 s)) < 0))
   end.
 Proof. exact sites_agree. Qed.
 Print Assumptions C16_sites_agree.
@@ -197,6 +199,19 @@ Theorem C16_prune_sound_literal : forall flag op s v zones z t,
   exists ids, prune flag op (SUtf8 s) zones = Some ids /\ In (z_id z) ids.
 Proof. exact prune_sound_literal. Qed.
 Print Assumptions C16_prune_sound_literal.
+
+(** The same statement for the code shapes of fixes/C16-pre-epoch-time-values.diff (zones
+    always registered, range clamped at 0; signed literal, only the calendar lookup clamped):
+    every literal instant below 2^32 — negative ones included — and every zone whose stamps are
+    below 2^32 — pre-epoch stamps included.  It becomes the statement about the code as soon
+    as tools/params/p11_timesites.py reads those shapes from the Rust text. *)
+Theorem C16_prune_sound_after_fix : forall fb dflt flag op v zones z t,
+  - 2 ^ 63 <= v < u32_mod ->
+  In z zones -> zmax z < u32_mod ->
+  In t (z_ts z) -> cmp_holds op t v ->
+  exists ids, prune_gen false false fb dflt flag op (SInt v) zones = Some ids /\ In (z_id z) ids.
+Proof. exact prune_sound_after_fix. Qed.
+Print Assumptions C16_prune_sound_after_fix.
 
 (** ... and the pruner does lose matching zones in each known class (concrete witnesses). *)
 Theorem C16_prune_refuted :
